@@ -33,8 +33,11 @@ MANIFEST = {
     "design_ref": "DESIGN.md 6/C14",
     "note": "Trusted: Coq kernel + vm_compute; tr_callsites (fail-closed ast translator, validated each run by driving every "
             "entry point against a direct parse with the triple the table predicts); the hand models of detect_spec_version / "
-            "_check_uuid (validated each run against the code).  TAXII entry points are in the theorems but not driven "
-            "(taxii2client absent); TAXIICollectionSource.all_versions first parses without the version (stated as a theorem).",
+            "_check_uuid (validated each run against the code).  Props/C14Schema.v (schema_detect_agrees: Model/Schema.v "
+            "detect_version = Model/VersionDetect.v detect where the former yields a version) DEPENDS ON r-schema's files "
+            "(Model/SchemaTypes.v, PyBase.v, Schema.v, Gen/Tables.v): when one of them does not build the theorem is not claimed "
+            "(note in the evidence, obligations count only Props/C14.v).  TAXII entry points are driven against a stand-in "
+            "taxii2client package (taxii2client is not installed); workbench in a worker of its own.",
     "technique": "Coq proof over a call-site table translated from source + behavioural correspondence through every entry point",
 }
 
@@ -46,6 +49,8 @@ Definition Tg : table := mkTable signatures callsites attr_assigns forwarders co
 
 FINDING_POSITIONAL = "C14-store-call-sites-positional-version"
 FINDING_EMPTY_BUNDLE = "C14-empty-21-bundle-not-detected"
+FINDING_TAXII_ALL_VERSIONS = "C14-taxii-all-versions-first-parse-unversioned"
+FINDING_TAXII_SINK_DICT = "C14-taxii-sink-add-dict-ignores-version"
 
 ZERO = "00000000-0000-0000-0000-000000000000"
 V1 = "c9bd2a4e-2b1c-1d3e-8f00-0123456789ab"
@@ -62,7 +67,12 @@ FS_SRC_ENTRIES = ["filesystem.FileSystemSource.get", "filesystem.FileSystemSourc
                   "filesystem.FileSystemStore.get", "filesystem.FileSystemStore.all_versions", "filesystem.FileSystemStore.query"]
 FS_SINK_ENTRIES = ["filesystem.FileSystemSink.add", "filesystem.FileSystemStore.add"]
 WB_ENTRIES = ["workbench.parse", "workbench.save"]      # driven in a worker of their own (the import patches the registry)
-DRIVEN = PARSE_ENTRIES + OBS_ENTRIES + MEM_ENTRIES + FS_SRC_ENTRIES + FS_SINK_ENTRIES + WB_ENTRIES
+# driven in a worker of their own, against a stand-in taxii2client package (a Collection object that serves / records)
+TAXII_SRC_ENTRIES = ["taxii.TAXIICollectionSource.get", "taxii.TAXIICollectionSource.all_versions", "taxii.TAXIICollectionSource.query",
+                     "taxii.TAXIICollectionStore.get", "taxii.TAXIICollectionStore.all_versions", "taxii.TAXIICollectionStore.query"]
+TAXII_SINK_ENTRIES = ["taxii.TAXIICollectionSink.add", "taxii.TAXIICollectionStore.add"]
+TAXII_ENTRIES = TAXII_SRC_ENTRIES + TAXII_SINK_ENTRIES
+DRIVEN = PARSE_ENTRIES + OBS_ENTRIES + MEM_ENTRIES + FS_SRC_ENTRIES + FS_SINK_ENTRIES + WB_ENTRIES + TAXII_ENTRIES
 # entries of the table that are not driven: internal helpers (covered by the theorem, reached through the
 # public ones), TAXII (needs a server), the workbench (importing it patches every class)
 OWN_ALLOW_ARG = set(PARSE_ENTRIES + OBS_ENTRIES + MEM_ENTRIES[:3])
@@ -238,6 +248,11 @@ def entries_for(p):
     if p["kind"] != "bundle" and safe:
         ents += MEM_ENTRIES + FS_SRC_ENTRIES + FS_SINK_ENTRIES
     return ents
+
+
+def whole_bundle(e, cfg):
+    """the entry point parses the BUNDLE around the probe as a whole (compare with parse(bundle)["objects"][0])"""
+    return cfg.get("wrap") == "bundlefile" or (e in TAXII_SINK_ENTRIES and cfg.get("wrap") == "bundle")
 
 
 def outcomes_equal(a, b):
@@ -490,18 +505,23 @@ def check(run):
     with common.Lock():
         try:
             res2 = common.build_props("Props/C14Schema.v")
-            run.coverage["obligations"] += res2["obligations"]
-            run.coverage["discharged"] += res2["discharged"]
-            run.coverage.setdefault("print_assumptions", {}).update(
-                {k: (v or "Closed under the global context") for k, v in res2["assumptions"].items()})
             schema_ok = res2["ok"]
-            if not res2["ok"]:
-                fa = res2["failed_at"] or ("?", 0, "?")
-                if fa[0] in ("Proofs/C14SchemaAgree.v", "Props/C14Schema.v"):
+            fa = res2["failed_at"] or ("?", 0, "?")
+            foreign = (not res2["ok"]) and fa[0] not in ("Proofs/C14SchemaAgree.v", "Props/C14Schema.v")
+            if foreign:
+                # a schema-family file (r-schema's) does not build: the agreement theorem is NOT claimed in this run,
+                # so it is not counted among the obligations either (obligations == discharged for what is claimed)
+                run.notes.append("Props/C14Schema.v (schema_detect_agrees) not claimed in this run: %s does not build "
+                                 "(a schema-family file, not a C14 file)" % fa[0])
+                run.coverage["schema_agreement_not_claimed"] = fa[0]
+            else:
+                run.coverage["obligations"] += res2["obligations"]
+                run.coverage["discharged"] += res2["discharged"]
+                run.coverage.setdefault("print_assumptions", {}).update(
+                    {k: (v or "Closed under the global context") for k, v in res2["assumptions"].items()})
+                if not res2["ok"]:
                     run.broken.append(Broken("obligation", "%s (Model/Schema.v detect_version vs Model/VersionDetect.v detect)" % fa[2],
                                              {"file": fa[0], "line": fa[1], "log_tail": res2["log_tail"][-1500:]}))
-                else:
-                    run.notes.append("Props/C14Schema.v not checked: %s does not build (not a C14 file)" % fa[0])
             for name, bad in res2["bad_axioms"]:
                 run.broken.append(Broken("assumption", name, {"axioms": bad}))
         except Exception as e:  # noqa: BLE001
@@ -588,6 +608,22 @@ def check(run):
             probes.append(dict(p, wb=True, data=d))
             plan.append((len(probes) - 1, "workbench.save", cfg))
 
+    # TAXII: a worker of its own (stand-in client package)
+    for pi in range(n_plain):
+        p = probes[pi]
+        if p["kind"] == "bundle" or not (isinstance(p["data"].get("id"), str) and isinstance(p["data"].get("type"), str)):
+            continue
+        if run.tier != "thorough" and pi % 3 and p["variant"] not in ("witness", "zero-uuid", "v1-uuid", "no-spec-version", "spec-version-added"):
+            continue
+        probes.append(dict(p, taxii=True))
+        qi = len(probes) - 1
+        for e in TAXII_ENTRIES:
+            for cfg in cfgs.setdefault(e, cfg_grid(e, run.tier)):
+                plan.append((qi, e, cfg))
+                if e in TAXII_SINK_ENTRIES and "allow_custom" not in cfg:
+                    for wr in ("str", "bundle", "list"):
+                        plan.append((qi, e, dict(cfg, wrap=wr)))
+
     # model: the triple(s) each (entry, cfg) hands to the parser
     eff = {}
     if model_ok:
@@ -613,18 +649,23 @@ def check(run):
         if p["kind"] == "observable":
             direct += [["parse_observable", ac, io_, v] for ac, io_, v in DIRECT_GRID]
         case = {"op": "probe", "data": p["data"], "entries": [[e, cfg] for e, cfg in by_probe[pi]], "direct": direct}
-        if any(cfg.get("wrap") == "bundlefile" for _, cfg in by_probe[pi]):
+        if any(whole_bundle(e, cfg) for e, cfg in by_probe[pi]):
             case["direct_bundle"] = [[ac, io_, v] for ac, io_, v in DIRECT_GRID]
         cases.append(case)
     wb_idx = [k for k, pi in enumerate(order) if probes[pi].get("wb")]
-    plain_idx = [k for k, pi in enumerate(order) if not probes[pi].get("wb")]
+    tx_idx = [k for k, pi in enumerate(order) if probes[pi].get("taxii")]
+    plain_idx = [k for k, pi in enumerate(order) if not probes[pi].get("wb") and not probes[pi].get("taxii")]
     impl = [None] * len(cases)
     for k, r in zip(plain_idx, common.run_impl("c14_impl", [cases[k] for k in plain_idx])):
         impl[k] = r
     if wb_idx:
         for k, r in zip(wb_idx, common.run_impl("c14_impl", [cases[k] for k in wb_idx], args=("workbench",))):
             impl[k] = r
+    if tx_idx:
+        for k, r in zip(tx_idx, common.run_impl("c14_impl", [cases[k] for k in tx_idx], args=("taxii",))):
+            impl[k] = r
     run.coverage["workbench_cases"] = len(wb_idx)
+    run.coverage["taxii_cases"] = len(tx_idx)
 
     dis, n_cmp, n_model_unknown = [], 0, 0
     for pi, c, r in zip(order, cases, impl):
@@ -638,20 +679,29 @@ def check(run):
             run.count({"e": e, "cfg": cfg, "d": p["data"]}, nontrivial=nontrivial)
             v = cfg.get("version")
             fn_own, ac_own, io_own = own
-            if cfg.get("wrap") == "bundlefile":
+            if whole_bundle(e, cfg):
                 fn_own = "bundlefile"
+            unv = direct.get((fn_own, ac_own, io_own, None))
+            known_cls = None
+            if e.startswith("taxii.") and e.endswith(".all_versions") and unv is not None and (
+                    (unv[0] == "exc" and outcomes_equal(out, unv)) or (unv[0] == "ok" and out[0] == "ok")):
+                # the unversioned first parse (inside self.query) raised, or it succeeded and what is parsed with the
+                # version afterwards is its result, not the content
+                known_cls = FINDING_TAXII_ALL_VERSIONS
+            if e in TAXII_SINK_ENTRIES and cfg.get("wrap") in (None, "list"):
+                known_cls = FINDING_TAXII_SINK_DICT           # a plain dict goes into v2x.Bundle(..) and never meets parse(.., version)
             # oracle: the property itself (a version is named)
-            if v is not None and cfg.get("wrap") != "bundlefile" and out[0] in ("ok", "exc") and out[-1] is not None \
+            if v is not None and not whole_bundle(e, cfg) and out[0] in ("ok", "exc") and out[-1] is not None \
                     and v not in out[-1]:
                 run.violations.append(Violation(
                     "%s(<%s %s>, %s) -> %s: the content was interpreted as version %s, not the version named"
                     % (e, p["cid"], p["variant"], ", ".join("%s=%r" % kv for kv in sorted(cfg.items())), short(out), out[-1]),
-                    {"kind": "entry", "entry": e, "cfg": cfg, "data": p["data"]}, finding=None))
+                    {"kind": "entry", "entry": e, "cfg": cfg, "data": p["data"]}, finding=known_cls))
             if v is not None:
                 want = direct[(fn_own, ac_own, io_own, v)]
                 if not outcomes_equal(out, want):
                     sig = direct.get((fn_own, ac_own, True, None))
-                    cls = None
+                    cls = known_cls
                     if (e in MEM_ENTRIES or e in FS_SRC_ENTRIES) and sig is not None and outcomes_equal(out, sig):
                         cls = FINDING_POSITIONAL
                     run.violations.append(Violation(
@@ -659,16 +709,19 @@ def check(run):
                         % (e, p["cid"], p["variant"], ", ".join("%s=%r" % kv for kv in sorted(cfg.items())), short(out),
                            fn_own, ac_own, v, short(want)),
                         {"kind": "entry", "entry": e, "cfg": cfg, "data": p["data"]}, finding=cls))
-            # correspondence: the triple the generated table predicts
-            if model_ok:
+            # correspondence: the triple the generated table predicts (the dict / list-of-dict branch of
+            # TAXIICollectionSink.add builds v2x.Bundle(stix_data) and reaches no parser call site: not in the table)
+            if model_ok and not (e in TAXII_SINK_ENTRIES and cfg.get("wrap") in (None, "list")):
                 key = (e, json.dumps({k: x for k, x in cfg.items() if k != "wrap"}, sort_keys=True))
                 triples = eff.get(key)
                 if triples is None:
                     continue
+                if out[0] == "ok" and len({(t[0], t[1][1], t[2][1], t[3][1]) for t in triples}) > 1:
+                    continue        # several parses in a row (TAXII all_versions): their composition is not a single direct parse
                 ok_any, unknown = False, False
                 for fn, ac, io_, vv in triples:
                     f = "parse_observable" if fn == "parsing.parse_observable" else "parse"
-                    if cfg.get("wrap") == "bundlefile":
+                    if whole_bundle(e, cfg):
                         f = "bundlefile"
                     if ac[0] == "?":
                         unknown = True
@@ -741,6 +794,15 @@ def check(run):
             if b.kind == "obligation":
                 b.detail["refuted_entries_and_sites"] = refuted[:20]
 
+    ex = {}
+    for v in run.violations:
+        if v.finding:
+            ex.setdefault(v.finding, [])
+            if len(ex[v.finding]) < 4:
+                ex[v.finding].append(v.what[:400])
+    run.coverage["classified_violation_examples"] = ex
+    run.coverage["classified_violation_counts"] = {k: sum(1 for v in run.violations if v.finding == k) for k in ex}
+
     run.coverage["trusted_base"] += [
         "translators/tr_callsites.py (fail-closed ast translator of the call sites; validated each run by the entry-point sweep)",
         "coq/Model/VersionDetect.v, coq/Model/IdCheck.v: hand models of detect_spec_version, the class choice and _check_uuid/"
@@ -750,7 +812,9 @@ def check(run):
     run.assumptions += [
         "the parser's use of allow_custom/interoperability inside the classes (property cleaning) is the subject of C02-C04; "
         "C14 stops at the constructor call obj_class(allow_custom=.., interoperability=.., **data)",
-        "TAXII source/sink: in the theorems, not driven (no server, taxii2client not installed)",
+        "TAXII source/sink/store: driven in a worker of their own against a stand-in `taxii2client` package put in sys.modules "
+        "before stix2 is imported (a Collection object that serves the objects given and records what is posted); every line of "
+        "stix2 run is the real one",
         "workbench.parse / workbench.save are driven in a worker process of their own (importing stix2.workbench replaces the "
         "2.1 SDO classes of the registry by factory functions); the other workbench aliases take no version",
         "the shapes of `emitted` (Props/C14.v) are what the serialiser emits; checked by handing real serialisations of every "
@@ -928,13 +992,14 @@ def replay(payload):
         e, cfg, d = r["entry"], r["cfg"], r["data"]
         direct = [["parse", ac, io_, v] for ac, io_, v in DIRECT_GRID] + [["parse_observable", ac, io_, v] for ac, io_, v in DIRECT_GRID]
         res = common.run_impl("c14_impl", [{"op": "probe", "data": d, "entries": [[e, cfg]], "direct": direct,
-                                            "direct_bundle": [list(x) for x in DIRECT_GRID]}], procs=1)[0]
+                                            "direct_bundle": [list(x) for x in DIRECT_GRID]}], procs=1,
+                              args=(("taxii",) if e.startswith("taxii.") else ("workbench",) if e.startswith("workbench.") else ()))[0]
         out, own = res["entries"][0], res["own"][0]
         table = {tuple(k): o for k, o in zip(direct, res["direct"])}
         for k, o in zip(DIRECT_GRID, res["direct_bundle"]):
             table[("bundlefile",) + tuple(k)] = o
         v = cfg.get("version")
-        fn = "bundlefile" if cfg.get("wrap") == "bundlefile" else own[0]
+        fn = "bundlefile" if whole_bundle(e, cfg) else own[0]
         want = table[(fn, own[1], own[2], v)]
         print("replay %s(%s) with %s" % (e, json.dumps(d)[:200], cfg))
         print("  entry point : %s%s" % (short(out), "" if out[-1] is None or out[0] not in ("ok", "exc") else "  (class registered for %s)" % out[-1]))
